@@ -310,25 +310,15 @@ func verifyArgsUsed(set *ProviderSet, used []*providerSetSrc) []error {
 	// A binding is used if the solver resolved its interface, or if another
 	// used binding is bound to its interface (I2 -> I1 -> *T: the solver goes
 	// from I2 straight to *T, but the binding of I1 is what makes that legal).
+	byIface := new(typeutil.Map) // to *IfaceBinding
+	for _, b := range set.Bindings {
+		byIface.Set(b.Iface, b)
+	}
 	usedBindings := make(map[*IfaceBinding]bool)
 	for _, u := range used {
-		if u.Binding != nil {
-			usedBindings[u.Binding] = true
-		}
-	}
-	for changed := true; changed; {
-		changed = false
-		for _, b := range set.Bindings {
-			if usedBindings[b] {
-				continue
-			}
-			for _, other := range set.Bindings {
-				if usedBindings[other] && types.Identical(other.Provided, b.Iface) {
-					usedBindings[b] = true
-					changed = true
-					break
-				}
-			}
+		for b := u.Binding; b != nil && !usedBindings[b]; {
+			usedBindings[b] = true
+			b, _ = byIface.At(b.Provided).(*IfaceBinding)
 		}
 	}
 	for _, b := range set.Bindings {
